@@ -62,9 +62,9 @@ func gen(tier string, seed int64) []mon.Case {
 	add := func(prefix string, d Desc) {
 		cs = append(cs, mon.MkCase(fmt.Sprintf("c20/%s/%04d", prefix, len(cs)), d))
 	}
-	nStress, chunks, nLin, perLin, maxLen := 16, 24000, 40, 50, 6
+	nStress, chunks, nLin, perLin, maxLen := 32, 30000, 80, 100, 7
 	if tier == "thorough" {
-		nStress, chunks, nLin, perLin, maxLen = 160, 120000, 200, 250, 8
+		nStress, chunks, nLin, perLin, maxLen = 160, 120000, 400, 250, 9
 	}
 	// every block below is a multiple of nWorkers cases, so that each kind meets every GOMAXPROCS
 	// setting (cases go to shards round-robin, GOMAXPROCS is per shard)
@@ -98,9 +98,6 @@ func gen(tier string, seed int64) []mon.Case {
 		parts := int64(1)
 		if total > 4000 {
 			parts = (total + 3999) / 4000
-			if parts > 7 && L == 6 {
-				parts = 7
-			}
 		}
 		for p := int64(0); p < parts; p++ {
 			add("seq", Desc{Kind: "seq", Len: L, Lo: total * p / parts, Hi: total * (p + 1) / parts})
